@@ -20,22 +20,237 @@ FILES = [BASE, UTL]
 FUNCTIONS = [(BASE, "CombinedRegistry.add_registry"), (BASE, "CombinedRegistry.__getitem__"),
              (BASE, "CombinedRegistry.__contains__"), (BASE, "CombinedRegistry.__len__"), (BASE, "CombinedRegistry.__iter__"),
              (BASE, "FilesystemRegistry.__iter__"), (BASE, "FilesystemRegistry.__len__"),
-             (UTL, "find_resistance"), (BASE, "FilesystemRegistry.__getitem__")]
-ASSUMES = ["D-DICT", "D-SET", "D-FS", "D-IO",
-           "EmbeddedRegistry (tarfile / pkg_resources) is not under contract: the five embedded archives are enumerated "
-           "completely (finite). FilesystemRegistry.__iter__/__len__ are under contract over the assumed directory listing "
+             (UTL, "find_resistance"), (BASE, "FilesystemRegistry.__getitem__"),
+             (BASE, "EmbeddedRegistry._data"), (BASE, "EmbeddedRegistry.__getitem__"), (BASE, "EmbeddedRegistry.__iter__"),
+             (BASE, "EmbeddedRegistry.__len__"), (BASE, "EmbeddedRegistry._load_name"), (BASE, "EmbeddedRegistry._load_resistance"),
+             (BASE, "EmbeddedRegistry.__eq__"), (BASE, "EmbeddedRegistry.__hash__")]
+ASSUMES = ["D-DICT", "D-SET", "D-FS", "D-IO", "D-TAR", "D-HASH", "D-CACHE",
+           "EmbeddedRegistry is under contract over an abstract archive (D-TAR: the member sequence of the package data file; "
+           "iter(tar.next, None) walks it, getmembers() lists it, one GenBank record per member); its abstract hook "
+           "`_load_entity` is an assumed contract at that level (returns an entity wrapping the record given, or a content "
+           "error) and is discharged for the five bundled registries by C20.H1 (shape of every return of the real bodies) and "
+           "C20.H2 (every class they can pick keeps StructuredRecord.__init__, itself under contract)",
+           "well-formedness of an archive (AW: member names distinct, each the id of the one record it holds) is a property "
+           "of package DATA: evaluated member by member on the five shipped archives (C20.AW[...], finite and complete); for "
+           "an archive violating AW the three views of an embedded registry disagree (must-fail witness C20.MF2a/b) -- "
+           "outside the statement, which quantifies over the five embedded registries",
+           "content errors (a member that is not one circular GenBank record with a known resistance and type) surface as "
+           "ValueError / RuntimeError / KeyError / StopIteration from `_data`: no closed-form condition at this level; absent "
+           "from the shipped archives by the exhaustive bounded enumeration",
+           "FilesystemRegistry.__iter__/__len__ are under contract over the assumed directory listing "
            "(D-FS: filterdir('/') yields each root-level file matching *.<ext> once, and every such file); generators are "
            "executed eagerly (terminating, fully consumed)",
            "AbstractPart.characterize: abstract view (its body is C05's subject)"]
 TRUSTED = ["tarfile, pkg_resources, pyfilesystem2, Bio.SeqIO GenBank parser"]
 EXPLANATION = ("body VCs of CombinedRegistry (union with first-one-wins by a loop invariant with a ghost witness, lookup, "
                "membership, len, iteration), find_resistance (first feature naming exactly one cassette; value in the table), "
-               "FilesystemRegistry.__getitem__ over an abstract file system; lemma: the lookup domain of a directory registry "
-               "is the set its iteration yields; the five embedded archives enumerated completely")
+               "FilesystemRegistry.__getitem__/__iter__/__len__ over an abstract file system, EmbeddedRegistry._data (loop "
+               "invariant with a ghost witness over the abstract archive), __getitem__ (cached / first use), __iter__, __len__, "
+               "__eq__, __hash__, _load_name, _load_resistance; lemmas: the lookup domain of a directory registry is the set its "
+               "iteration yields (L1, L2); for a well-formed archive the iteration, length and lookup of an embedded registry "
+               "are one mapping (L3a-d); the five shipped archives are well-formed (AW); the hooks of the five registries wrap "
+               "the record given (H1, H2)")
 
 
 def obligations(ctx):
-    return ctx.verify(FUNCTIONS) + ctx.part(lemmas)
+    return ctx.verify(FUNCTIONS) + ctx.part(lemmas) + ctx.part(embedded_lemmas) + ctx.part(archives) + ctx.part(hooks)
+
+
+REGISTRIES = (("moclo-ytk/moclo/registry/ytk.py", "ytk", "YTKRegistry"), ("moclo-ytk/moclo/registry/ytk.py", "ytk", "PTKRegistry"),
+              ("moclo-cidar/moclo/registry/cidar.py", "cidar", "CIDARRegistry"),
+              ("moclo-ecoflex/moclo/registry/ecoflex.py", "ecoflex", "EcoFlexRegistry"),
+              ("moclo-plant/moclo/registry/plant.py", "plant", "PlantRegistry"))
+
+
+def embedded_lemmas(ctx):
+    """B over the contracts of EmbeddedRegistry: for a well-formed archive (AW: member names pairwise distinct, each
+    member's name is the id of the record it holds) iteration, length and lookup are one coherent mapping"""
+    from contracts.registry_c import data_post, SEQS, IDX, item_recid
+    from pyvc.models_moclo import tar_listing, tar_name, tar_recid, MAP, ABSENT
+    T = tar_listing(tm.V("file", STR))
+    n = tm.seqlen(T)
+    D, W, Y = tm.V("D", MAP), tm.V("W", IDX), tm.V("Y", SEQS)
+    i, j, a, b = tm.V("i", INT), tm.V("j", INT), tm.V("a", INT), tm.V("b", INT)
+    key = tm.V("key", STR)
+
+    class _Ex(object):      # data_post only needs the resistance table of the real source
+        pass
+    from pyvc.repo import Repo
+    ex = _Ex()
+    ex.repo = Repo(ctx.repo_root)
+    aw = [tm.forall([a, b], tm.implies(tm.and_(tm.le(0, a), tm.lt(a, b), tm.lt(b, n)), tm.ne(tar_name(tm.seqnth(T, a)), tar_name(tm.seqnth(T, b))))),
+          tm.forall_range(i, 0, n, tm.eq(tar_name(tm.seqnth(T, i)), tar_recid(tm.seqnth(T, i))))]
+    data = [t for (_, t) in data_post(ex, D, T, W, n)]                                                       # contract of _data
+    it = [tm.eq(tm.seqlen(Y), n), tm.forall_range(j, 0, n, tm.eq(tm.seqnth(Y, j), tar_name(tm.seqnth(T, j))))]   # contract of __iter__
+    ln = tm.V("len", INT)
+    out = []
+    out.append(Obligation("C20.L3a an embedded registry yields each key once", aw + it,
+                          tm.forall([a, b], tm.implies(tm.and_(tm.le(0, a), tm.lt(a, b), tm.lt(b, tm.seqlen(Y))), tm.ne(tm.seqnth(Y, a), tm.seqnth(Y, b)))),
+                          kind="B", text="AW and Y[j] = name(T[j]) => the keys are pairwise distinct"))
+    out.append(Obligation("C20.L3b its length is the number of keys", it + [tm.eq(ln, n)], tm.eq(ln, tm.seqlen(Y)), kind="B",
+                          text="len = |T| = |Y| (contracts of __len__ and __iter__)"))
+    it_k = tm.select(D, tm.seqnth(Y, i))
+    out.append(Obligation("C20.L3c every yielded key is found, the item carries it as its id and holds a circular record with that id and a known resistance",
+                          aw + it + data + [tm.le(0, i), tm.lt(i, tm.seqlen(Y))],
+                          tm.and_(tm.ne(it_k, ABSENT), tm.eq(tm.app("item_id", STR, it_k), tm.seqnth(Y, i)), tm.eq(item_recid(it_k), tm.seqnth(Y, i)),
+                                  tm.app("item_circ", BOOL, it_k)),
+                          kind="B", text="Y[i] = name(T[i]) = recid(T[i]) is a key of the data mapping (contract of _data); __getitem__ returns D[key]"))
+    out.append(Obligation("C20.L3d a key iteration does not yield is absent from the data mapping (KeyError)",
+                          aw + it + data + [tm.forall_range(i, 0, tm.seqlen(Y), tm.ne(tm.seqnth(Y, i), key))],
+                          tm.eq(tm.select(D, key), ABSENT), kind="B",
+                          text="every key of D is recid(T[W[key]]) = name(T[W[key]]) = Y[W[key]]"))
+    # must-fail: without AW the three views need not agree (a member named otherwise than its record)
+    e0 = tm.seqnth(T, 0)
+    witness = [tm.eq(n, 1), tm.eq(Y, tm.sequnit(tm.S("member"))), tm.eq(tar_name(e0), tm.S("member")), tm.eq(tar_recid(e0), tm.S("record")),
+               tm.eq(D, tm.store(tm.constarr(MAP, ABSENT), tm.S("record"), 7)), tm.eq(tm.app("item_id", STR, 7), tm.S("record")),
+               tm.eq(item_recid(7), tm.S("record")), tm.app("item_circ", BOOL, 7), tm.app("item_wraps", BOOL, 7),
+               tm.eq(tm.app("item_res", STR, 7), tm.S("Ampicillin")), tm.eq(W, tm.constarr(IDX, 0)), tm.eq(i, 0)]
+    # must-fail by witness (a satisfiability query over the quantified contracts comes back `unknown`): the one-member
+    # archive whose member `member` holds the record `record` satisfies both contracts, and its only key is not found
+    out.append(Obligation("C20.MF2a must-fail witness: the archive (member `member` holding record `record`) satisfies the contracts of _data and __iter__",
+                          witness, tm.and_(*(it + data)), kind="B", text="so AW is what makes the three views agree, not the contracts alone"))
+    out.append(Obligation("C20.MF2b must-fail witness: ... and the key it yields is absent from its data mapping",
+                          witness, tm.eq(tm.select(D, tm.seqnth(Y, 0)), ABSENT), kind="B", text="iteration is by member name, the mapping by record id"))
+    return out
+
+
+def archives(ctx):
+    """C: well-formedness (AW) of the five archives shipped in the tree, read member by member"""
+    import io
+    import tarfile
+    import warnings
+    import Bio.SeqIO
+    out = []
+    for (rel, modname, clsname) in REGISTRIES:
+        path = os.path.join(ctx.repo_root, os.path.dirname(rel), {"PTKRegistry": "ptk"}.get(clsname, modname) + ".tar.gz")
+        bad, n_ = [], 0
+        try:
+            with tarfile.open(path) as tar, warnings.catch_warnings():
+                warnings.simplefilter("ignore")
+                names = []
+                for m in tar.getmembers():
+                    n_ += 1
+                    names.append(m.name)
+                    if not m.isfile():
+                        bad.append("%s is not a regular file" % m.name)
+                        continue
+                    recs = list(Bio.SeqIO.parse(io.TextIOWrapper(tar.extractfile(m)), "gb"))
+                    if len(recs) != 1:
+                        bad.append("%s holds %d records" % (m.name, len(recs)))
+                    elif recs[0].id != m.name:
+                        bad.append("%s holds the record %r" % (m.name, recs[0].id))
+                if len(set(names)) != len(names):
+                    bad.append("member names repeat")
+                if n_ == 0:
+                    bad.append("no members")
+        except Exception as e:
+            bad.append("cannot be read: %r" % (e,))
+        out.append(Obligation("C20.AW[%s] the shipped archive is well-formed: %d members, names distinct, each the id of the one record it holds" % (clsname, n_),
+                              [], tm.B(not bad), kind="C", text="; ".join(bad[:5]) or os.path.basename(path),
+                              meta=dict(function=clsname, clause="archive-well-formed", detail=bad[:10])))
+    return out
+
+
+def hooks(ctx):
+    """the assumed contract of the abstract hook `_load_entity` (returns an entity wrapping the very record given) for
+    the five bundled registries:  F: every `return` of the real body is `<wrapper class>(record)` or
+    `<part class>.characterize(record)` with `record` the parameter, never rebound, its id never assigned;
+    C: every class the body can pick (its class tables, evaluated on the real class) is a StructuredRecord subclass
+    that keeps StructuredRecord.__init__ (contract: stores the record given)."""
+    import ast as _ast
+    import importlib
+    from pyvc import native
+    from pyvc.repo import Repo
+    ns = native.load(ctx.repo_root)
+    native.kits(ctx.repo_root)
+    core = ns["moclo.core"]
+    SR = ns["moclo.core._structured"].StructuredRecord
+    out = []
+    for (rel, modname, clsname) in REGISTRIES:
+        owner, node = clsname, None
+        try:
+            tree = _ast.parse(open(os.path.join(ctx.repo_root, rel), encoding="utf-8").read())
+            classes = {c_.name: c_ for c_ in tree.body if isinstance(c_, _ast.ClassDef)}
+            while owner in classes and node is None:
+                node = next((m_ for m_ in classes[owner].body if isinstance(m_, _ast.FunctionDef) and m_.name == "_load_entity"), None)
+                if node is None:      # inherited from a registry class of the same file
+                    bases = [b_.id for b_ in classes[owner].bases if isinstance(b_, _ast.Name)]
+                    owner = bases[0] if bases else None
+        except Exception:
+            node = None
+        if node is None:
+            out.append(Obligation("C20.H1[%s] _load_entity found" % clsname, [], tm.FALSE, kind="F", text="no _load_entity for %s in %s" % (clsname, rel)))
+            continue
+        params = [a_.arg for a_ in node.args.args]
+        rec = params[1] if len(params) == 2 else None
+        bad, tables = [], set()
+        if rec is None:
+            bad.append("signature %r" % (params,))
+        for n_ in _ast.walk(node):
+            if isinstance(n_, (_ast.Assign, _ast.AugAssign, _ast.AnnAssign, _ast.For, _ast.With, _ast.NamedExpr)):
+                tgts = n_.targets if isinstance(n_, _ast.Assign) else [getattr(n_, "target", None)] if not isinstance(n_, _ast.With) else [i_.optional_vars for i_ in n_.items]
+                for t_ in tgts:
+                    for x_ in _ast.walk(t_) if t_ is not None else []:
+                        if isinstance(x_, _ast.Name) and x_.id == rec and isinstance(x_.ctx, _ast.Store):
+                            bad.append("line %d rebinds %s" % (n_.lineno, rec))
+                        if isinstance(x_, _ast.Attribute) and isinstance(x_.value, _ast.Name) and x_.value.id == rec and x_.attr in ("id", "seq") \
+                                and isinstance(x_.ctx, _ast.Store):
+                            bad.append("line %d assigns %s.%s" % (n_.lineno, rec, x_.attr))
+            if isinstance(n_, _ast.Return):
+                v = n_.value
+                ok = isinstance(v, _ast.Call) and len(v.args) == 1 and not v.keywords and isinstance(v.args[0], _ast.Name) and v.args[0].id == rec
+                if ok:
+                    f = v.func
+                    if isinstance(f, _ast.Attribute) and f.attr == "characterize":
+                        tables.add(("characterize", _ast.unparse(f.value)))
+                    elif isinstance(f, _ast.Subscript) and isinstance(f.value, _ast.Attribute) and isinstance(f.value.value, _ast.Name) and f.value.value.id == "self":
+                        tables.add(("table", f.value.attr))
+                    elif isinstance(f, _ast.Name):
+                        tables.add(("loopvar", f.id))
+                    else:
+                        ok = False
+                if not ok:
+                    bad.append("line %d returns %s" % (n_.lineno, _ast.unparse(v)[:60] if v is not None else None))
+        # loop variables must range over the values of a class table of self
+        for (k_, name_) in sorted(tables):
+            if k_ == "loopvar":
+                src = [n_ for n_ in _ast.walk(node) if isinstance(n_, _ast.For) and any(isinstance(x_, _ast.Name) and x_.id == name_ for x_ in _ast.walk(n_.target))]
+                attrs = {x_.attr for n_ in src for x_ in _ast.walk(n_.iter) if isinstance(x_, _ast.Attribute) and isinstance(x_.value, _ast.Name) and x_.value.id == "self"}
+                if len(src) != 1 or len(attrs) != 1:
+                    bad.append("callee %s is not a loop variable over one class table" % name_)
+                else:
+                    tables.add(("table", attrs.pop()))
+        out.append(Obligation("C20.H1[%s] every return of _load_entity wraps the record given" % clsname, [], tm.B(not bad), kind="F",
+                              text="; ".join(bad[:5]) or "returns: %s" % sorted(tables), meta=dict(function="%s._load_entity" % owner, file=rel,
+                                                                                                   clause="hook-shape", detail=bad[:10])))
+        # C: the classes
+        cbad, ncls = [], 0
+        try:
+            regcls = getattr(importlib.import_module("moclo.registry." + modname), clsname)
+            kit = importlib.import_module("moclo.kits." + ("moclo" if modname == "plant" else modname))
+            cands = []
+            for (k_, name_) in sorted(tables):
+                if k_ == "table":
+                    cands += list(getattr(regcls, name_).values())
+                elif k_ == "characterize":
+                    root = eval(name_, dict(vars(importlib.import_module("moclo.registry." + modname))))
+                    todo = [root]
+                    while todo:
+                        c_ = todo.pop()
+                        cands.append(c_)
+                        todo += c_.__subclasses__()
+            for c_ in cands:
+                ncls += 1
+                if not (isinstance(c_, type) and issubclass(c_, SR)):
+                    cbad.append("%r is not a StructuredRecord subclass" % (c_,))
+                elif c_.__init__ is not SR.__init__:
+                    cbad.append("%s overrides __init__" % c_.__name__)
+        except Exception as e:
+            cbad.append("tables cannot be evaluated: %r" % (e,))
+        out.append(Obligation("C20.H2[%s] every class _load_entity can pick (%d) keeps StructuredRecord.__init__" % (clsname, ncls), [],
+                              tm.B(not cbad and ncls > 0), kind="C", text="; ".join(cbad[:5]) or "%d classes" % ncls,
+                              meta=dict(function="%s._load_entity" % owner, file=rel, clause="hook-classes", detail=cbad[:10])))
+    return out
 
 
 def lemmas(ctx):
@@ -78,7 +293,7 @@ def lemmas(ctx):
 
 
 # ---------------------------------------------------------------------------------------------- replay / bounded
-GB = """LOCUS       %(name)-16s %(n)d bp    DNA     circular SYN 01-JAN-2000
+GB = """LOCUS       %(locus)-16s %(n)d bp    DNA     circular SYN 01-JAN-2000
 DEFINITION  test plasmid %(name)s.
 ACCESSION   %(name)s
 VERSION     %(name)s
@@ -108,17 +323,18 @@ GB_MULTI = GB.replace("""     misc_feature    1..10
 """)
 
 
-def gb_text(name, seq, res="AmpR", multi=False):
+def gb_text(name, seq, res="AmpR", multi=False, locus=None):
     lines = []
+    locus = locus or name
     if multi:
         for i in range(0, len(seq), 60):
             chunk = seq[i:i + 60].lower()
             lines.append("%9d %s" % (i + 1, " ".join(chunk[j:j + 10] for j in range(0, len(chunk), 10))))
-        return GB_MULTI % dict(name=name, n=len(seq), res=res, origin="\n".join(lines))
+        return GB_MULTI % dict(name=name, locus=locus, n=len(seq), res=res, origin="\n".join(lines))
     for i in range(0, len(seq), 60):
         chunk = seq[i:i + 60].lower()
         lines.append("%9d %s" % (i + 1, " ".join(chunk[j:j + 10] for j in range(0, len(chunk), 10))))
-    return GB % dict(name=name, n=len(seq), res=res, origin="\n".join(lines))
+    return GB % dict(name=name, locus=locus, n=len(seq), res=res, origin="\n".join(lines))
 
 
 def make_dir(ctx, files):
@@ -136,6 +352,94 @@ def plasmid_text(rng):
     from Bio.Restriction import BsaI
     from bounded import assembly as ba
     return ba.build_module(BsaI, "AACC", ba.clean(rng, 12, BsaI), "GGAT", rng, backbone=20)
+
+
+import contextlib
+
+
+@contextlib.contextmanager
+def synthetic_embedded(ns, members, label):
+    """an EmbeddedRegistry subclass reading a generated archive: members = [(member name, GenBank text)] in archive
+    order.  (pkg_resources.resource_stream is answered from memory for this one file name, for the duration.)"""
+    import importlib
+    import io
+    import tarfile
+    from Bio.Restriction import BsaI
+    base = importlib.import_module("moclo.registry.base")
+    core = ns["moclo.core"]
+    buf = io.BytesIO()
+    with tarfile.open(mode="w:gz", fileobj=buf) as tar:
+        for name, text in members:
+            data = text.encode("utf-8")
+            ti = tarfile.TarInfo(name)
+            ti.size = len(data)
+            tar.addfile(ti, io.BytesIO(data))
+    blob = buf.getvalue()
+    fname = "synthetic-%s.tar.gz" % label
+    pr = base.pkg_resources
+    orig = pr.resource_stream
+
+    def fake(module, file):
+        return io.BytesIO(blob) if file == fname else orig(module, file)
+
+    Part = type("SynPart", (core.AbstractPart, core.Entry), dict(cutter=BsaI, signature=("AACC", "GGAT")))
+    Reg = type("SynRegistry_" + label, (base.EmbeddedRegistry,), dict(_module="moclo.registry", _file=fname,
+                                                                      _load_entity=lambda self, record: Part(record)))
+    pr.resource_stream = fake
+    try:
+        yield Reg
+    finally:
+        pr.resource_stream = orig
+
+
+def embedded_scenarios(ctx, ns, viol):
+    """well-formed generated archives (member name = record id, names distinct; the LOCUS name is something else, the
+    members are not sorted, 0 / 1 / several members): the mapping laws, the order of iteration, the cache"""
+    rng = random.Random(ctx.seed + 77)
+    evals = 0
+    texts = [plasmid_text(rng) for _ in range(4)]
+    archives = {
+        "three": [("Zeta_1", gb_text("Zeta_1", texts[0], "KanR", locus="LOCUS_Z")), ("alpha", gb_text("alpha", texts[1], "AmpR", locus="first")),
+                  ("pMid.V2", gb_text("pMid.V2", texts[2], "CmR", multi=True, locus="Zeta_1"))],
+        "one": [("pSOLO-7", gb_text("pSOLO-7", texts[3], "SpecR", locus="other"))],
+        "none": [],
+    }
+    seqs = dict(three=texts[:3], one=texts[3:], none=[])
+    for label, members in archives.items():
+        with synthetic_embedded(ns, members, label) as Reg:
+            reg = Reg()
+            names = [n for n, _ in members]
+            evals += check_mapping(reg, "generated archive %r" % label, viol, expect_keys=set(names))
+            try:
+                got = list(reg)
+                if got != names:
+                    viol.append(dict(name="embedded_order_%s" % label, what="generated archive %r: iteration yields %r, the members are %r" % (label, got, names),
+                                     case=dict(archive=label)))
+                if len(reg) != len(names):
+                    viol.append(dict(name="embedded_len_%s" % label, what="generated archive %r: len() = %r for %d members" % (label, len(reg), len(names)),
+                                     case=dict(archive=label)))
+                for (n_, _), t_ in zip(members, seqs[label]):
+                    it = reg[n_]
+                    if str(it.entity.record.seq).upper() != t_.upper() or it.record is not it.entity.record:
+                        viol.append(dict(name="embedded_record_%s" % label, what="generated archive %r: the item of %r does not hold the member's own record" % (label, n_),
+                                         case=dict(archive=label, key=n_)))
+                    if reg[n_] is not it:
+                        viol.append(dict(name="embedded_cache_%s" % label, what="generated archive %r: two lookups of %r give two items" % (label, n_),
+                                         case=dict(archive=label, key=n_)))
+                other = Reg()
+                if not (reg == other and hash(reg) == hash(other)) or reg == object() or (label != "three" and False):
+                    viol.append(dict(name="embedded_eq_%s" % label, what="generated archive %r: two registries of one archive are not equal / hash differently" % label,
+                                     case=dict(archive=label)))
+            except Exception as e:
+                import traceback
+                viol.append(dict(name="embedded_raised_%s" % label, what="generated archive %r: %r (%s)" % (label, e, traceback.format_exc(limit=-2)[-300:]),
+                                 case=dict(archive=label)))
+            evals += 1
+    with synthetic_embedded(ns, archives["three"], "three") as A:
+        with synthetic_embedded(ns, archives["one"], "one") as B:
+            if A() == B():
+                viol.append(dict(name="embedded_eq_distinct", what="registries of two different archives compare equal", case={}))
+    return evals
 
 
 def check_mapping(reg, label, viol, expect_keys=None):
@@ -218,6 +522,12 @@ def bounded(ctx):
             distinct.add((clsname, k))
     if embedded:
         samples.append(dict(registry=embedded[0][0], items=len(embedded[0][1]), first_key=next(iter(embedded[0][1]))))
+    try:
+        evals += embedded_scenarios(ctx, ns, viol)
+        distinct.update({("generated-archive", x_) for x_ in ("three", "one", "none")})
+    except Exception as e:
+        import traceback
+        viol.append(dict(name="embedded_scenarios_raised", what="generated archives: %r (%s)" % (e, traceback.format_exc(limit=-3)[-400:]), case={}))
     # (2) combinations: union, first one wins, repeats
     for regs in [embedded[:2], embedded[:2][::-1], embedded[:1] * 2, embedded[2:5], embedded]:
         if not regs:
@@ -347,9 +657,11 @@ def replay(ctx, ob, model):
 
 
 LEVEL_TEXT = ("Deductive: CombinedRegistry (union, first one wins, KeyError on absent keys, len/iteration of the key set), "
-              "find_resistance and the directory lookup are checked against contracts for all registries/keys; the coherence of "
-              "directory lookup with iteration is a lemma over the lookup contract and the assumed file-system contract; the "
-              "embedded archives are a finite configuration space and are enumerated completely on every run.")
-LEVEL_NOTE = ("Assumed: dict/set semantics, pyfilesystem2 (isfile, filterdir, splitext), Bio.SeqIO, tarfile/pkg_resources; "
-              "EmbeddedRegistry and directory iteration not under contract (exhaustive enumeration / bounded instead). Bounded "
-              "part: 2 generated directories, 6 combinations.")
+              "find_resistance, the directory registry (lookup, iteration, length) and the embedded registry (_data with a loop "
+              "invariant over the abstract archive, lookup, iteration, length, equality, hash, loaders) are checked against "
+              "contracts for all registries/keys; coherence of lookup with iteration is a lemma over those contracts (L1-L3), "
+              "for embedded registries under the well-formedness of the archive, which is evaluated completely on the five "
+              "shipped archives (AW); the abstract `_load_entity` hook is discharged for the five registries (H1, H2).")
+LEVEL_NOTE = ("Assumed: dict/set semantics, pyfilesystem2 (isfile, filterdir, splitext), Bio.SeqIO, tarfile/pkg_resources "
+              "(D-TAR). Bounded part (not proved): the five embedded archives enumerated completely, 3 generated archives, "
+              "3 generated directories, combinations.")
